@@ -7,6 +7,7 @@ mod frames;
 mod gen_c09;
 mod gen_color;
 mod gen_geom;
+mod gen_loops;
 mod gen_math;
 mod gen_meta;
 mod gen_pointwise;
@@ -98,7 +99,9 @@ fn main() {
                 "C03" => gen_tf::gen_c03(&mut sh, &o),
                 "C10" => gen_tf::gen_c10(&mut sh, &o),
                 "C14" => gen_meta::gen_c14(&mut sh, &o),
-                "C09" => gen_c09::gen_c09(&mut sh, &o),
+                "C09" => gen_c09::gen_c09(&mut sh, &o, false),
+                "C09I" => gen_c09::gen_c09(&mut sh, &o, true),
+                "LOOPS" => gen_loops::gen_loops(&mut sh, &o),
                 "C11" => gen_pointwise::gen_c11(&mut sh, &o),
                 "C13" => gen_safety::gen_c13(&mut sh, &o, None),
                 "GEOM" => gen_geom::gen_geom(&mut sh, &o, &o.plan),
